@@ -28,8 +28,10 @@ type Meas struct {
 	Err   string `json:"err,omitempty"`
 	Alloc uint64 `json:"alloc"` // runtime.MemStats.TotalAlloc delta (minimum over the re-measurements)
 	Ns    int64  `json:"ns"`
-	Panic string `json:"panic,omitempty"`
-	Tries int    `json:"tries,omitempty"`
+	Panic   string `json:"panic,omitempty"`
+	PanicFn string `json:"panicfn,omitempty"` // innermost wazero function on the panicking stack
+	PanicAt string `json:"panicat,omitempty"`
+	Tries   int    `json:"tries,omitempty"`
 }
 
 // RunObs is what instantiating an accepted module and calling its exports showed.
@@ -39,6 +41,7 @@ type RunObs struct {
 	Calls    int            `json:"calls"`
 	Outcomes map[string]int `json:"outcomes,omitempty"`
 	Internal []string       `json:"internal,omitempty"` // error texts that show an internal failure of the runtime
+	Others   []string       `json:"others,omitempty"`   // error texts outside the known trap classes (first few)
 	Timeouts int            `json:"timeouts,omitempty"`
 }
 
@@ -78,7 +81,8 @@ func measure(n int, setup func() (run func() error, cleanup func())) Meas {
 		func() {
 			defer func() {
 				if e := recover(); e != nil {
-					m.Panic = short(fmt.Sprint(e)) + " | " + firstFrames(string(debug.Stack()))
+					m.Panic = short(fmt.Sprint(e))
+					m.PanicFn, m.PanicAt = firstFrames(string(debug.Stack()))
 				}
 			}()
 			if err := f(); err != nil {
@@ -115,17 +119,28 @@ func measure(n int, setup func() (run func() error, cleanup func())) Meas {
 	return best
 }
 
-func firstFrames(st string) string {
+// firstFrames returns the innermost wazero function (outside this harness) and the first three file:line frames.
+func firstFrames(st string) (fn string, at string) {
 	var keep []string
-	for _, ln := range strings.Split(st, "\n") {
-		if strings.Contains(ln, "/wazero/") && !strings.Contains(ln, "zz_verif") && strings.Contains(ln, ".go:") {
+	lines := strings.Split(st, "\n")
+	for i, ln := range lines {
+		if strings.Contains(ln, "/internal/") && !strings.Contains(ln, "zz_verif") && strings.Contains(ln, ".go:") && strings.HasPrefix(ln, "\t") {
+			if fn == "" && i > 0 {
+				fn = lines[i-1]
+				if k := strings.LastIndex(fn, "("); k > 0 {
+					fn = fn[:k]
+				}
+				if k := strings.LastIndex(fn, "/"); k >= 0 {
+					fn = fn[k+1:]
+				}
+			}
 			keep = append(keep, strings.TrimSpace(ln))
 			if len(keep) == 3 {
 				break
 			}
 		}
 	}
-	return strings.Join(keep, " <- ")
+	return fn, strings.Join(keep, " <- ")
 }
 
 func rtConfig(eng string) wazero.RuntimeConfig {
@@ -406,7 +421,8 @@ func runModule(ctx context.Context, eng string, bin []byte, m *wasm.Module) (obs
 	obs = &RunObs{Outcomes: map[string]int{}}
 	defer func() {
 		if e := recover(); e != nil {
-			obs.Internal = append(obs.Internal, "PANIC escaped the runtime: "+short(fmt.Sprint(e))+" | "+firstFrames(string(debug.Stack())))
+			fn, at := firstFrames(string(debug.Stack()))
+			obs.Internal = append(obs.Internal, "PANIC escaped the runtime: "+short(fmt.Sprint(e))+" | "+fn+" | "+at)
 		}
 	}()
 	if why := tooBigToRun(m); why != "" {
@@ -418,7 +434,9 @@ func runModule(ctx context.Context, eng string, bin []byte, m *wasm.Module) (obs
 		obs.Skipped = why
 		return
 	}
-	r := wazero.NewRuntimeWithConfig(ctx, rtConfig(eng))
+	// the run stage caps guest memories at 256 pages: a guest growing its memory to 4 GiB is legitimate and would
+	// only exercise the host's allocator (declared maxima above the cap are clamped, not rejected)
+	r := wazero.NewRuntimeWithConfig(ctx, rtConfig(eng).WithMemoryLimitPages(256))
 	defer r.Close(ctx)
 	for _, name := range order {
 		if _, err := r.InstantiateWithConfig(ctx, sups[name], wazero.NewModuleConfig().WithName(name)); err != nil {
@@ -428,8 +446,7 @@ func runModule(ctx context.Context, eng string, bin []byte, m *wasm.Module) (obs
 	}
 	cm, err := r.CompileModule(ctx, bin)
 	if err != nil {
-		obs.InstErr = "recompile: " + short(err.Error())
-		obs.Internal = append(obs.Internal, obs.InstErr)
+		obs.Skipped = "not compilable under the run stage's memory cap: " + short(err.Error())
 		return
 	}
 	note := func(err error) {
@@ -437,6 +454,9 @@ func runModule(ctx context.Context, eng string, bin []byte, m *wasm.Module) (obs
 		obs.Outcomes[k]++
 		if k == "timeout" {
 			obs.Timeouts++
+		}
+		if k == "other" && len(obs.Others) < 3 {
+			obs.Others = append(obs.Others, short(err.Error()))
 		}
 		if isInternal(err.Error()) {
 			if len(obs.Internal) < 4 {
